@@ -134,7 +134,7 @@ def gen_case(rng, widen, thorough):
 
 
 def gen_cases(ctx):
-    return [gen_case(ctx.rng, ctx.widen, ctx.thorough) for _ in range(ctx.budget(2000, 60000))]
+    return [gen_case(ctx.rng, ctx.widen, ctx.thorough) for _ in range(ctx.budget(2000, 20000))]
 
 
 def shrink_candidates(case):
